@@ -22,6 +22,7 @@ import re
 
 from core import Stream, enc, dec, enc_list, dec_list, run_driver
 import cli
+import places
 import reports_common as rc
 import c03
 import c04
@@ -182,8 +183,21 @@ def dep5_glob_match(g, p):
     return re.fullmatch("".join(rx), p, re.S) is not None
 
 
-def truth(case):
-    """-> {"status": "ok"|"config-error"|"duplicate", "files": {path: sorted items}, categories, "exit", "compliant", "violated"}"""
+def hidden_lic_names(case):
+    """regular files below LICENSES/ with a component that begins with a dot"""
+    ln = node_at(case["tree"], "LICENSES")
+    if ln is None or ln[0] != "d":
+        return []
+    return [p for p, node in walk_nodes(ln[1]) if node[0] == "f" and any(part.startswith(".") for part in p.split("/"))]
+
+
+def truth(case, every_file=False):
+    """-> {"status": "ok"|"config-error"|"duplicate", "files": {path: sorted items}, categories, "exit", "compliant", "violated"}
+
+    `every_file`: clause (c) of C01 speaks of *every file in LICENSES/*; with every_file=True the files whose name, or whose
+    directory's name, begins with a dot count like any other (the reading of the property text).  With False they are left out:
+    that is what the tool does (glob('**') skips them), what the composed model mirrors, and what the streams about `reuse spdx`
+    build on."""
     tree, flags = case["tree"], case["flags"]
     covered = sorted(c03.spec_covered(c03_tree(tree), flags))
     found = sorted(p[:-len(".probe")] for p in c03.spec_covered(c03_tree(tree, True), flags) if p.endswith("REUSE.toml.probe"))
@@ -207,7 +221,9 @@ def truth(case):
             if node[0] == "f" and not any(part.startswith(".") for part in p.split("/")):
                 lic.append(p)
     if not rc.dup_free({"lic": lic}):
-        return {"status": "duplicate"}
+        return {"status": "duplicate"}       # (the tool stops: C16; decided on the names the tool sees)
+    if every_file:
+        lic = lic + hidden_lic_names(case)
     files_abs = []
     per_file = {}
     per_exprs = {}
@@ -321,7 +337,7 @@ def src_label(source, stype):
 def run_impl(case):
     flags = case["flags"]
     opts = (["--include-submodules"] if flags[0] == "1" else []) + (["--include-meson-subprojects"] if flags[1] == "1" else [])
-    with cli.scratch("rv-e2e-") as root:
+    with places.project_dir(case, "rv-e2e-") as root:
         materialise(root, case["tree"])
         saved = os.environ.get("_SUPPRESS_DEP5_WARNING")
         os.environ["_SUPPRESS_DEP5_WARNING"] = "1"
@@ -700,6 +716,9 @@ def gen_case(rng):
         if rng.random() < 0.03:
             add_path(tree, "REUSE.toml", ["f", {"t": "toml", "tables": [{"globs": ["**"], "prec": None, "cop": ["2000 X"], "lic": None}]}])
     case = {"flags": flags, "tree": tree}
+    where = places.choose(rng)
+    if where:
+        case["root"] = where          # the project lives in a directory with an unusual name (places.py); no oracle looks at it
     # LICENSES/: provide what is used, then disturb
     tr = truth(case)
     if tr["status"] == "ok":
@@ -839,7 +858,17 @@ class E2EModelStream(Stream):
         if impl_out.startswith("EXC"):
             return "crash: " + impl_out
         got = json.loads(impl_out)
-        exp = truth(case)
+        why = self.judge(case, got, truth(case, every_file=True))
+        if why is not None and hidden_lic_names(case):
+            # known-finding shape: the verdict is what the property demands as soon as the dot-files below LICENSES/ are
+            # left out of "every file in LICENSES/", and only then
+            lenient = self.judge(case, got, truth(case))
+            if lenient is not None:
+                return lenient
+            return "hidden-licence-file: %s below LICENSES/ not examined (%s) {shape=hidden-name-in-licenses}" % (hidden_lic_names(case), why)
+        return why
+
+    def judge(self, case, got, exp):
         if got["status"] != exp["status"]:
             return "status: the tool answers %s, the project is %s" % (got["status"], exp["status"])
         if got["status"] != "ok":
@@ -873,6 +902,8 @@ class E2EModelStream(Stream):
         return rc.diff_kind({"lic": exp["lic_names"]}, got, exp, CATS + ("used",))
 
     def classify(self, case, failure):
+        if failure.startswith("hidden-licence-file") and failure.endswith("{shape=hidden-name-in-licenses}"):
+            return "hidden-name-in-licenses"
         if failure.startswith("spdx-name-with-identifier-stem"):
             return "extensionless-id-with-identifier-stem"
         if failure.startswith("licenses-regular-file"):
